@@ -136,7 +136,7 @@ def corr_factories(c, tier, rng):
     from props import flows as pflows
     # (quick tier: the hand-built triangular-spline stacks are run under C01 only — one property pays their compile time;
     #  the thorough tier also compares their log_prob / sample / sample_and_log_prob here)
-    pflows.corr_flows(c, tier, rng, parts=("factories",) if tier == "quick" else ("factories", "trispline"), methods=("lp", "s", "slp"))
+    pflows.corr_flows(c, tier, rng, parts=("factories", "gentrispline") if tier == "quick" else ("factories", "trispline", "gentrispline"), methods=("lp", "s", "slp"))
 
 
 def factories():
